@@ -3,6 +3,7 @@ from __future__ import annotations
 
 import ast
 
+from .. import logic
 from ..cfg import CFG
 from ..core import (AnalysisError, DefRef, NotConst, Ref, call_name, calls_in, dotted, enclosing_conditions, enclosing_conditions_expanded,
                     func_params, get_kw, norm, qualname_of, walk_no_nested)
@@ -269,10 +270,26 @@ def run(ctx):
                   "lines would carry keys that are not fields of the record", mk, "only under `if self.pack_descriptors`", key=f"R14.3:pack_obj:marker-unconditional:{mk.slice.value}")
     wi = ctx.anchor_func("flow.record.adapter.jsonfile.JsonfileWriter.__init__")
     adds = [c for c in calls_in(wi) if norm(c.func).endswith("on_descriptor.add_handler")]
-    ctx.check(len(adds) == 1 and enclosing_conditions(adds[0], wi) == [("self.descriptors", True)], "R14.3", "JsonfileWriter.__init__:handler",
+    hok = False
+    if len(adds) == 1:
+        wcfg_i = CFG(wi)
+        an = wcfg_i.node_of(adds[0])
+        # only when enabled: `self.descriptors` holds wherever the handler is added ...
+        only_when = logic.implies(logic.facts_as_premises(wcfg_i.facts_at(an.id)), logic.parse("self.descriptors"))
+        # ... and always when enabled: with descriptors on, the constructor cannot finish without passing the registration
+        always_when = wcfg_i.exit not in logic.reachable_assuming(wcfg_i, wcfg_i.entry, lambda a: True if a == "self.descriptors" else None, avoid=lambda n: n.id == an.id)
+        hok = only_when and always_when
+    ctx.check(hok, "R14.3", "JsonfileWriter.__init__:handler",
               "the descriptor handler is not registered exactly when descriptors are enabled", wi, "registered under `if self.descriptors`")
     packer_new = [c for c in calls_in(wi) if isinstance(prog.resolve_expr(jf, c.func), DefRef) and prog.resolve_expr(jf, c.func).qualname.endswith("JsonRecordPacker")]
-    ok = bool(packer_new) and norm(get_kw(packer_new[0], "pack_descriptors") or ast.Constant(None)) == "self.descriptors" and norm(get_kw(packer_new[0], "indent") or ast.Constant(None)) == "indent"
+    ind = get_kw(packer_new[0], "indent") if packer_new else None
+    if ind is not None:
+        from ..core import expand_aliases, single_assign_aliases
+        ind = expand_aliases(ind, single_assign_aliases(wi))
+    # the indent handed to the packer is the caller's option, at most converted from text: built from `indent` and int()/isinstance()/str only
+    ind_names = {n.id for n in ast.walk(ind) if isinstance(n, ast.Name)} if ind is not None else set()
+    ok = bool(packer_new) and norm(get_kw(packer_new[0], "pack_descriptors") or ast.Constant(None)) == "self.descriptors" and "indent" in ind_names and ind_names <= {"indent", "int", "isinstance", "str"} \
+        and not any(isinstance(n, ast.Constant) and isinstance(n.value, int) and not isinstance(n.value, bool) for n in ast.walk(ind))
     ctx.check(ok, "R14.3", "JsonfileWriter.__init__:packer-options", "the packer is not configured from the writer's descriptors/indent options", wi,
               "JsonRecordPacker(indent=indent, pack_descriptors=self.descriptors)")
 
